@@ -195,7 +195,7 @@ class Graph:
             hops = 0
             while cond is not None and hops < 8:
                 cn = f.nodes[cond]
-                if cn['k'] == 'binop' and cn['op'] in ('&&', '||') and term['k'] != 'BinaryOperator':
+                if cn['k'] == 'binop' and cn['op'] in ('&&', '||'):
                     cond = cn['rhs']
                     hops += 1
                 else:
